@@ -58,14 +58,19 @@ theorem agreeAt_compile (env : Env) (st : State) (r : CReq) (σ : Slot)
       exact ha
 
 theorem agreeAt_step (env : Env) (st : State) (q : Req) (σ : Slot)
-    (hl : q.noStatus2) (hr : q.noLostRequest) (h : ∀ i, AgreeAt (st i) σ) :
+    (hl : q.noStatus2) (h : ∀ i, AgreeAt (st i) σ) :
     ∀ i, AgreeAt ((step env st q).1 i) σ := by
   intro i
   cases q with
   | compile r =>
     simp only [step]
-    rw [stepCompile_of_read env st r hr]
-    exact agreeAt_compile env st r σ hl i (h i)
+    by_cases hr : r.out = .requestUnreadable
+    · rw [stepCompile_of_lost env st r hr]
+      obtain ⟨hb, ha⟩ := stepCompileLost_same st r i
+      intro x hx
+      rw [hb σ] at hx; rw [ha]; exact h i x hx
+    · rw [stepCompile_of_read env st r hr]
+      exact agreeAt_compile env st r σ hl i (h i)
   | tx r =>
     intro x hx
     simp only [step] at hx ⊢
@@ -74,17 +79,15 @@ theorem agreeAt_step (env : Env) (st : State) (q : Req) (σ : Slot)
     exact h i x hx
 
 theorem agreeAt_exec (env : Env) (σ : Slot) (h : List Req) :
-    ∀ st, (∀ i, AgreeAt (st i) σ) → NoStatus2 h → NoLostRequest h →
-      ∀ i, AgreeAt (exec env st h i) σ := by
+    ∀ st, (∀ i, AgreeAt (st i) σ) → NoStatus2 h → ∀ i, AgreeAt (exec env st h i) σ := by
   induction h with
-  | nil => intro st h0 _ _; exact h0
+  | nil => intro st h0 _; exact h0
   | cons q qs ih =>
-    intro st h0 hl hr
+    intro st h0 hl
     simp only [exec]
     apply ih
-    · exact agreeAt_step env st q σ (hl q (by simp)) (hr q (by simp)) h0
+    · exact agreeAt_step env st q σ (hl q (by simp)) h0
     · intro q' hq'; exact hl q' (by simp [hq'])
-    · intro q' hq'; exact hr q' (by simp [hq'])
 
 theorem agreeAt_init (s : Side) (σ : Slot) (i : Nat) : AgreeAt (initState s i) σ := by
   intro x hx
@@ -136,9 +139,7 @@ theorem lastLe_exec (env : Env) (h : List Req) :
     | compile r =>
       simp only [step]
       by_cases hlost : r.out = .requestUnreadable
-      · rw [stepCompile_of_lost env st r hlost]
-        obtain ⟨b', _, hst, _⟩ := stepCompileLost_spec st r
-        rw [hst]
+      · rw [stepCompile_of_lost env st r hlost, (stepCompileLost_spec st r).1]
         by_cases hi : i = r.w
         · subst hi; simp only [upd_same]; intro x hx; simp [Side.forget] at hx
         · rw [upd_other _ _ _ _ hi]; exact h0 i
